@@ -85,7 +85,8 @@ class Problem:
         self.idx = [[a for a in range(self.n) if sub[a] == b] for b in range(self.nb)]
 
     def hamiltonian(self):
-        conv = {"dense": lambda x: np.array(x), "sparse": lambda x: sparse.csr_array(x)}[self.fmt]
+        conv = {"dense": lambda x: np.array(x), "sparse": lambda x: sparse.csr_array(x),
+                "sympy": lambda x: sympy.Matrix(np.asarray(x).shape[0], np.asarray(x).shape[1], lambda i, j: sympy.nsimplify(complex(np.asarray(x)[i, j]), rational=True))}[self.fmt]
         d = {tuple([0] * self.nparam): conv(np.diag(self.E).astype(complex))}
         for o, m in self.terms.items():
             d[o] = conv(m)
@@ -214,6 +215,12 @@ def section_herm():
                         check_problem("herm", pb, maxtot, mask_dict=md, label=f"layout{li}/{fmt}/p{nparam}/mask{b}")
                 if nb > 1:
                     check_problem("herm", pb, maxtot, fully=tuple(range(nb)), label=f"layout{li}/{fmt}/p{nparam}/fullyall")
+    # an identically zero H_0 block at every position (its energies are represented by a 0-d array), dense / sparse / symbolic values
+    for E, sub in (([1.0, 2.0, 0.0, 0.0], [0, 0, 1, 1]), ([0.0, 0.0, 1.0, 2.0], [0, 0, 1, 1]), ([1.0, 2.0, 3.0, 0.0, 0.0], [0, 0, 0, 1, 1]),
+                   ([2.0, 0.0, 0.0, 0.0, 5.0], [0, 1, 1, 1, 2])):
+        for fmt in ("dense", "sparse", "sympy"):
+            pb = Problem(E, sub, seed=88, fmt=fmt, cplx=(fmt != "sympy"))
+            check_problem("herm", pb, 2, label=f"zero-block/{E}/{fmt}")
     # masks that eliminate nothing (explicit all-False masks, as dict or bare array): the unique least-action answer is U = 1, H_tilde = H
     for E, sub in (([0.0, 1.0, 2.5], [0, 0, 0]), ([0.0, 1.0, 3.0, 4.5], [0, 0, 1, 1])):
         pb = Problem(E, sub, seed=77)
